@@ -28,10 +28,14 @@ def prune_state(ctx, r):
     return st, v, trace
 
 
-def one_instance(ctx, r, big=0, prepared=None):
-    base, v, trace = prepared if prepared else crash.build_state(ctx, r, 8 + r.n(10), big=big)
+def one_instance(ctx, r, big=0, prepared=None, legacy=False, only=None):
+    base, v, trace = prepared if prepared else crash.build_state(ctx, r, 8 + r.n(10), big=big, legacy=legacy)
     try:
         label, argv, stdin = ("prune--yes(tasks+epics)", ["--json", "--agent", "p", "prune", "--yes"], None) if prepared else crash.multi_event_command(r, v)
+        for _ in range(200):
+            if prepared or not only or label in only:
+                break
+            label, argv, stdin = crash.multi_event_command(r, v)
         env = {"VERIF_RAND": str(r.next() % (1 << 40))}
         pre = base.graph()
         if "err" in pre:
@@ -84,6 +88,9 @@ def run(ctx):
     for i in range(1 if ctx.quick else 10):
         rr = r.fork()
         one_instance(ctx, rr, prepared=prune_state(ctx, rr))
+    # a store whose log still has the old name: the commands that rewrite the log (and every other) killed before each of their calls
+    for i in range(3 if ctx.quick else 40):
+        one_instance(ctx, r.fork(), legacy=True, only=(("compact",), ("plan",), None)[i % 3])
     ctx.cov["rule"] = ("for generated CLI-reachable pre-states × multi-event commands (claim, claim <id>, multi-field set, create-with-state/claim, sequence chain, prune --yes, plan, compact): "
                        "SIGKILL injected with strace before every one of the command's system calls on the store's files; observable state (clock readings aside) must equal "
                        "the state before or the state after (twin run with the same scripted RNG); distinct = (command, kill point, events recorded)")
